@@ -99,6 +99,11 @@ UB == {FileD(<<BmEl(EA, EB)>> \o u) : u \in UNION {Unreach(e) : e \in {EA, Mem(I
 ProtoNames == {"constructor", "valueOf", "toString", "hasOwnProperty"}
 UN == {FileD(<<BmEl(EA, EB)>> \o u) : u \in UNION {Unreach(Id(n)) : n \in ProtoNames}}
       \cup {FileD(<<BmEl(Id(n), EB)>>) : n \in ProtoNames}
+      (* field names of which one is a part of another (s / xs, valueOf / value) read by ONE binding, the shorter one also
+         bound somewhere else: each keeps the updaters of every binding that reads it *)
+      \cup {FileD(<<Elem("v", <<Attr("class", "", MV(<<P(Id(n1)), S(" "), P(Id(n2))>>))>>, <<Text(<<P(Id(n1)), S(": "), P(Id(n2))>>)>>),
+                    Elem("w", <<>>, <<Text(<<P(Id(n2))>>)>>)>>) : n1 \in {"valueOf", "constructor"}, n2 \in {"a", "s", "b"}}
+      \cup {FileD(<<Elem("v", <<Attr("plain", "p", EV(Bin("+", Id("toString"), Id("s"))))>>, <<Text(<<P(Id("s")), P(Id("toString"))>>)>>), Text(<<P(Id("s"))>>)>>)}
 DN == VO(<< <<"a", VI(1)>>, <<"b", VS("t1")>>, <<"s", VS("xy")>>, <<"constructor", VB(TRUE)>>, <<"valueOf", VS("v")>>, <<"toString", VB(FALSE)>>,
             <<"hasOwnProperty", VI(3)>> >>)
 
